@@ -47,6 +47,7 @@ import CaddyModel.C16.AddrProps
 import CaddyModel.C16.NormalizeProps
 import CaddyModel.C16.MapSortProps
 import CaddyModel.C16.WeakStringProps
+import CaddyModel.C16.ImportProps
 
 namespace CaddyModel.C16
 
